@@ -48,6 +48,7 @@ type rWork struct {
 
 func (r *rWork) recycle() {
 	if (r.recyclec != nil) && (r.buffer != nil) {
+		verifSched(31)
 		r.recyclec <- r.buffer
 		r.recyclec = nil
 		r.buffer = nil
@@ -216,6 +217,7 @@ func (c *concReader) Read(p []byte) (int, error) {
 			c.stopAnyWorkInProgress(true)
 		}
 		c.seenRead = true
+		verifSched(32)
 		c.roic <- Range{c.pos, c.posLimit}
 	}
 
@@ -250,6 +252,7 @@ func (c *concReader) nextWork() rWork {
 			delete(c.completedWorks, c.pos)
 			return work
 		}
+		verifSched(30)
 		work := <-c.resc
 		c.completedWorks[work.dRange[0]] = work
 	}
@@ -261,15 +264,18 @@ func (c *concReader) nextWork() rWork {
 func (c *concReader) stopAnyWorkInProgress(keepWorking bool) {
 	// Synchronize the Manager and Workers on stopc (an unbuffered channel).
 	for i, n := 0, 1+c.numWorkers; i < n; i++ {
+		verifSched(20)
 		c.stopc <- stopWork{c.ackc, keepWorking}
 	}
 
 	if keepWorking {
+		verifSched(21)
 		c.recycleBuffers()
 	}
 
 	// Synchronize the Manager and Workers on ackc (an unbuffered channel).
 	for i, n := 0, 1+c.numWorkers; i < n; i++ {
+		verifSched(22)
 		c.ackc <- struct{}{}
 	}
 }
@@ -314,8 +320,10 @@ func runRWorker(stopc <-chan stopWork, resc chan<- rWork, reqc <-chan rWork, rac
 
 loop:
 	for {
+		verifSched(1)
 		select {
 		case stop := <-stopc:
+			verifSched(2)
 			if stop.ackc != nil {
 				<-stop.ackc
 			} else {
@@ -327,6 +335,7 @@ loop:
 			continue loop
 
 		case inWork := <-input:
+			verifSched(3)
 			input = nil
 			if inWork.err == nil {
 				dRange = inWork.dRange
@@ -393,6 +402,7 @@ loop:
 
 		// Make a new outWork, shrinking dRange to be whatever's left over.
 		{
+			verifSched(4)
 			n, err := racReader.Read(buffer[:])
 			if err == io.EOF {
 				err = nil
@@ -419,8 +429,10 @@ func runRManager(stopc <-chan stopWork, roic <-chan Range, reqc chan<- rWork, ch
 
 loop:
 	for {
+		verifSched(10)
 		select {
 		case stop := <-stopc:
+			verifSched(11)
 			if stop.ackc != nil {
 				<-stop.ackc
 			} else {
@@ -432,6 +444,7 @@ loop:
 			continue loop
 
 		case roi = <-input:
+			verifSched(12)
 			input, output = nil, reqc
 			if err := chunkReader.SeekToChunkContaining(roi[0]); err != nil {
 				if err == io.EOF {
@@ -442,6 +455,7 @@ loop:
 			}
 
 		case output <- work:
+			verifSched(13)
 			err := work.err
 			work = rWork{}
 			if err != nil {
@@ -451,6 +465,7 @@ loop:
 		}
 
 		for {
+			verifSched(14)
 			chunk, err := chunkReader.NextChunk()
 			if err == io.EOF {
 				input, output = roic, nil
